@@ -28,7 +28,7 @@ type Relay struct {
 }
 
 func NewRelay(target string) (*Relay, error) {
-	ln, err := net.Listen("tcp", "127.0.0.1:0")
+	ln, err := net.Listen("tcp", sameHost(target))
 	if err != nil {
 		return nil, err
 	}
@@ -202,7 +202,7 @@ func TestC06(t *testing.T) {
 				if fwdHeader {
 					hdr["x-piko-forward"] = "true"
 				}
-				if conn := c.OneOf("connectionHeader", "", "", "", "x-piko-forward", "close, X-Piko-Forward", "keep-alive, x-piko-endpoint"); conn != "" {
+				if conn := c.OneOf("connectionHeader", "", "", "", "x-piko-forward", "close, X-Piko-Forward", "keep-alive, x-piko-endpoint", "keep-alive\nx-piko-forward", "keep-alive\nX-Verif-Hop\nx-piko-endpoint, X-Piko-Forward"); conn != "" {
 					hdr["Connection"] = conn
 					c.Class("client-connection-header")
 				}
